@@ -7,7 +7,7 @@
      logging goroutine g   Writef/WriteLog/Trace:  format the entry            LogCall e   (visible: the call begins)
                                                     logQueue <- v               Enq g       (internal; blocks while the queue is full)
                                                     return                      LogRet e    (visible)
-     FlushLogger caller    call                                                 FlushCall   (visible)
+     FlushLogger caller    call (first, or again after a return)                FlushCall   (visible)
                            syncCancel()                                         Request     (internal)
                            select { <-time.After(1s) | <-asyncDone.Done() }     FlushRet b  (visible; b = woken by asyncDone)
      flusher (flushLog)    select { v := <-logQueue -> Write | default }        PollTake e / PollEmpty
@@ -29,7 +29,9 @@ Definition entry_eqb (a b : entry) : bool := (eg a =? eg b) && (en a =? en b) &&
 
 Inductive lpc := LIdle | LSending (e : entry) | LSent (e : entry).
 Inductive fpc := Top | Inner | Drain | Done.
-Inductive flpc := FNone | FCalled | FRequested | FReturned (done : bool).
+(* FlushLogger caller: the first call (FCalled .. FReturned) and any later call (FLCalled .. FLReturned) *)
+Inductive flpc := FNone | FCalled | FRequested | FReturned (done : bool)
+                | FLCalled | FLRequested | FLReturned (done : bool).
 
 Inductive label :=
 | LogCall (e : entry) | Enq (g : N) | LogRet (e : entry)
@@ -95,11 +97,15 @@ Definition gstep (drain : bool) (cap : N) (s : st) (l : label) : option st :=
   | FlushCall =>
       match fl s with
       | FNone => Some (mk (q s) (fp s) (req s) FCalled (lp s) (cnt s) (hist s) (written s) (retd s) (retd s) (pre_req s))
+      | FReturned _ | FLReturned _ =>   (* a later call; the ghosts keep describing the first one *)
+          Some (mk (q s) (fp s) (req s) FLCalled (lp s) (cnt s) (hist s) (written s) (retd s) (pre_call s) (pre_req s))
       | _ => None
       end
   | Request =>
       match fl s with
       | FCalled => Some (mk (q s) (fp s) true FRequested (lp s) (cnt s) (hist s) (written s) (retd s) (pre_call s) (hist s))
+      | FLCalled =>   (* syncCancel() again: no effect *)
+          Some (mk (q s) (fp s) (req s) FLRequested (lp s) (cnt s) (hist s) (written s) (retd s) (pre_call s) (pre_req s))
       | _ => None
       end
   | FlushRet b =>
@@ -107,6 +113,10 @@ Definition gstep (drain : bool) (cap : N) (s : st) (l : label) : option st :=
       | FRequested =>
           if negb b || match fp s with Done => true | _ => false end
           then Some (mk (q s) (fp s) (req s) (FReturned b) (lp s) (cnt s) (hist s) (written s) (retd s) (pre_call s) (pre_req s))
+          else None
+      | FLRequested =>
+          if negb b || match fp s with Done => true | _ => false end
+          then Some (mk (q s) (fp s) (req s) (FLReturned b) (lp s) (cnt s) (hist s) (written s) (retd s) (pre_call s) (pre_req s))
           else None
       | _ => None
       end
@@ -195,10 +205,12 @@ Fixpoint calls_of (ls : list label) : list entry :=
    yet written, when its call began, and for those whose call has also returned, when it returned.
      EWrite e      e was submitted, is unwritten, the flusher has not finished, and no other unwritten entry's
                    call returned before e's call began (the queue is FIFO: such an entry was enqueued first);
-     EFlushRet tt  no entry whose call returned before EFlushCall is still unwritten; no Write afterwards.
+     EFlushRet tt  no entry whose call returned before the FIRST EFlushCall is still unwritten; no Write afterwards
+                   (FlushLogger may be called again: a later call returns on the first call's acknowledgement, and
+                   nothing more is promised — the flusher has returned; known finding "second flush").
    Per-goroutine order and exactly-once follow (a goroutine's next call begins after its previous one returned). *)
 
-Inductive afl := ANone | ACalled (t : N) | ARet.
+Inductive afl := ANone | ACalled (t : N) | ARet (t : N).   (* t: time of the FIRST FlushLogger call *)
 
 Record ast := mkA {
   a_t : N;
@@ -246,16 +258,17 @@ Definition astep (a : ast) (ev : event) : option ast :=
   | EFlushCall =>
       match a_fl a with
       | ANone => Some (mkA (t + 1) (a_fly a) (a_next a) (a_unw a) (a_ret a) (ACalled t) (a_done a))
-      | _ => None
+      | ARet f => Some (mkA (t + 1) (a_fly a) (a_next a) (a_unw a) (a_ret a) (ACalled f) (a_done a))   (* a later call *)
+      | ACalled _ => None
       end
   | EFlushRet b =>
       match a_fl a with
       | ACalled f =>
           if b then
             if forallb (fun p => f <? snd p) (a_ret a)
-            then Some (mkA (t + 1) (a_fly a) (a_next a) (a_unw a) (a_ret a) ARet true)
+            then Some (mkA (t + 1) (a_fly a) (a_next a) (a_unw a) (a_ret a) (ARet f) true)
             else None
-          else Some (mkA (t + 1) (a_fly a) (a_next a) (a_unw a) (a_ret a) ARet (a_done a))
+          else Some (mkA (t + 1) (a_fly a) (a_next a) (a_unw a) (a_ret a) (ARet f) (a_done a))
       | _ => None
       end
   end.
